@@ -3,12 +3,16 @@
    explicit: res = Ok | Err | Panic | OutOfFuel).  This file collects the totality theorems of
    the cones; each is a statement over ALL strings.  What is NOT proved here: wall-clock time,
    the real stack and the allocator — the harness measures them (streams totality and
-   totality-scale) — and the entry points that go through the derive macro or an external
-   parser (Control, apt, changes, buildinfo, removal, DEP-3, APT sources, lossy relations):
-   those are decided by the totality stream only until their cones are merged. *)
+   totality-scale).  The external field parsers (url, chrono, debversion, ...) are parameters of
+   the typed-document models: any function from text to an optional value. *)
 From V.model Require Import Base Deb822Lex Deb822Parse Lossy RelLex RelParse Pgp EnumTab Codecs Vcs.
 From V.gen Require Import Enums_gen.
 From V.proofs Require Import Deb822LexP Deb822ParseP LossyP RelLexP RelParseP PgpP EnumTabP VcsP.
+From V.model Require RelLossy.
+From V.proofs Require RelLossyP.
+From V.model Require TypedDocs.
+From V.proofs Require TypedSpecP.
+From V.props Require C20.
 
 (* deb822, lossless: Deb822::{from_str, from_str_relaxed, read, read_relaxed}, Paragraph::from_str.
    Also: at most 3 errors per character (memory), nesting depth at most 4 (stack). *)
@@ -111,3 +115,34 @@ Example C02_ex :
   (exists t n, parse_relaxed [36; 123]%N true = Ok (t, n)) /\                     (* "${" *)
   (exists t n, parse_relaxed [97; 32; 91]%N false = Ok (t, n)).                   (* "a [" *)
 Proof. repeat split; vm_compute; do 2 eexists; reflexivity || (eexists; reflexivity). Qed.
+
+(* relationship fields, lossy: lossy::{Relation, Relations}::from_str, whatever the version parser
+   (debversion is a parameter of the model: any function from text to an optional version). *)
+Theorem C02_relations_lossy : forall (V : Type) (vparse : str -> option V) (s : str),
+  ((exists r, RelLossy.relation_from_str vparse s = Ok r) \/ (exists e, RelLossy.relation_from_str vparse s = Err e)) /\
+  ((exists rs, RelLossy.relations_from_str vparse s = Ok rs) \/ (exists e, RelLossy.relations_from_str vparse s = Err e)).
+Proof.
+  intros V vparse s. split; apply RelLossyP.fine_cases; [apply RelLossyP.relation_from_str_fine|apply RelLossyP.relations_from_str_fine].
+Qed.
+Check C02_relations_lossy : forall (V : Type) (vparse : str -> option V) (s : str),
+  ((exists r, RelLossy.relation_from_str vparse s = Ok r) \/ (exists e, RelLossy.relation_from_str vparse s = Err e)) /\
+  ((exists rs, RelLossy.relations_from_str vparse s = Ok rs) \/ (exists e, RelLossy.relations_from_str vparse s = Err e)).
+Print Assumptions C02_relations_lossy.
+
+(* typed documents through the derive macro: lossy Control, copyright, apt Release/Source/Package,
+   removal records, buildinfo, DEP-3 headers, APT sources — a value or an error for every text,
+   whatever the external field parsers return (C20's cone). *)
+Theorem C02_typed_documents : forall E ext_parse s,
+  TypedSpecP.tvalue (TypedDocs.parse_control E ext_parse s) /\ TypedSpecP.tvalue (TypedDocs.parse_copyright E ext_parse s) /\
+  TypedSpecP.tvalue (TypedDocs.parse_release E ext_parse s) /\ TypedSpecP.tvalue (TypedDocs.parse_apt_source E ext_parse s) /\
+  TypedSpecP.tvalue (TypedDocs.parse_apt_package E ext_parse s) /\
+  TypedSpecP.tvalue (TypedDocs.parse_removal E ext_parse s) /\ TypedSpecP.tvalue (TypedDocs.parse_buildinfo E ext_parse s) /\
+  TypedSpecP.tvalue (TypedDocs.parse_dep3 E ext_parse s) /\ TypedSpecP.tvalue (TypedDocs.parse_repositories E ext_parse s).
+Proof. exact C20.doc_total. Qed.
+Check C02_typed_documents : forall E ext_parse s,
+  TypedSpecP.tvalue (TypedDocs.parse_control E ext_parse s) /\ TypedSpecP.tvalue (TypedDocs.parse_copyright E ext_parse s) /\
+  TypedSpecP.tvalue (TypedDocs.parse_release E ext_parse s) /\ TypedSpecP.tvalue (TypedDocs.parse_apt_source E ext_parse s) /\
+  TypedSpecP.tvalue (TypedDocs.parse_apt_package E ext_parse s) /\
+  TypedSpecP.tvalue (TypedDocs.parse_removal E ext_parse s) /\ TypedSpecP.tvalue (TypedDocs.parse_buildinfo E ext_parse s) /\
+  TypedSpecP.tvalue (TypedDocs.parse_dep3 E ext_parse s) /\ TypedSpecP.tvalue (TypedDocs.parse_repositories E ext_parse s).
+Print Assumptions C02_typed_documents.
